@@ -122,15 +122,25 @@ impl Uint128 {
     pub fn multiply_ratio<A: IntoU128, B: IntoU128>(&self, n: A, d: B) -> (r: Uint128)
         requires
             d.uv() != 0,
-            (self.0 as nat * n.uv() as nat) / (d.uv() as nat) <= u128::MAX,
+            muldiv(self.0 as nat, n.uv() as nat, d.uv() as nat) <= u128::MAX,
         ensures
-            r.0 as nat == (self.0 as nat * n.uv() as nat) / (d.uv() as nat),
+            r.0 as nat == muldiv(self.0 as nat, n.uv() as nat, d.uv() as nat),
     { unimplemented!() }
+    /// uint128.rs `checked_multiply_ratio`: Err(DivideByZero) / Err(Overflow) instead of panicking
+    #[verifier::external_body]
+    pub fn checked_multiply_ratio<A: IntoU128, B: IntoU128>(&self, n: A, d: B) -> (r: Result<Uint128, CheckedMultiplyRatioError>)
+        ensures
+            r is Ok <==> d.uv() != 0 && muldiv(self.0 as nat, n.uv() as nat, d.uv() as nat) <= u128::MAX,
+            r is Ok ==> r->Ok_0.0 as nat == muldiv(self.0 as nat, n.uv() as nat, d.uv() as nat),
+    { unimplemented!() }
+    pub const MAX: Uint128 = Uint128(u128::MAX);
     #[verifier::external_body]
     pub fn to_string(&self) -> (r: String)
         ensures r@ == dec(self.0 as nat)
     { unimplemented!() }
 }
+#[derive(Debug)]
+pub enum CheckedMultiplyRatioError { DivideByZero, Overflow }
 impl PartialOrdSpecImpl for Uint128 {
     open spec fn obeys_partial_cmp_spec() -> bool { true }
     open spec fn partial_cmp_spec(&self, o: &Uint128) -> Option<core::cmp::Ordering> {
@@ -196,7 +206,7 @@ impl IntoStr for Uint128 {
 #[derive(Debug, Structural, PartialEq, Eq, Clone, Copy)]
 pub struct Decimal(pub u128);
 pub open spec fn DECIMAL_FRACTIONAL() -> nat { 1_000_000_000_000_000_000 }
-pub open spec fn decimal_ratio(a: nat, b: nat) -> nat { (a * DECIMAL_FRACTIONAL()) / b }
+pub open spec fn decimal_ratio(a: nat, b: nat) -> nat { muldiv(a, DECIMAL_FRACTIONAL(), b) }
 pub uninterp spec fn decimal_str(atomics: nat) -> Seq<char>;
 impl Decimal {
     pub const fn zero() -> (r: Decimal) ensures r.0 == 0 { Decimal(0) }
